@@ -10,6 +10,20 @@ BASELINE = "cd /repo && /venv/bin/python -m pytest -ra -q -p no:cacheprovider --
 
 # id -> (category, technique, text, note, design_ref, engine)
 CHECKS = {
+    "C09": (
+        "model_checking",
+        "bounded-exhaustive enumeration of call trees (depth <= 3, thorough 4) over generated callee contracts, each executed by the real SEVM.run and compared with a reference EVM for every value of the symbolic call value",
+        "Every call tree of the shapes root->1, root->1->1, root->2 (sequence) and root->1->1->1 over per-frame alphabets (call kind in CALL/STATICCALL/"
+        "DELEGATECALL/CALLCODE/CREATE/CREATE2, effects subset of SSTORE/TSTORE/LOG, value in {0,1,symbolic,forwarded}, outcome in return/revert/INVALID/"
+        "out-of-bounds RETURNDATACOPY/STOP) is assembled into one contract per node. Each node returns a fixed-layout record of what it observes "
+        "(CALLER, ORIGIN, ADDRESS, CALLVALUE, storage, transient storage, balance, child success flags, RETURNDATASIZE and child records) and the root "
+        "finally dumps storage/transient/balance/code of every account; the whole record must equal the reference EVM's for x in {0,1,balance,balance+1}. "
+        "Stuck paths and uncovered inputs are violations too.",
+        "Trusted: mc/refevm.py call/create semantics (Appendix B.1), mc/calltree.py generator. Created addresses are abstract (taken from halmos's trace, "
+        "consistency checked through later reads).",
+        "DESIGN.md §4 C09",
+        "A",
+    ),
     "C01": (
         "model_checking",
         "bounded-exhaustive enumeration of all programs of a statement grammar, each run once by the real SEVM.run; every reported path evaluated on every input of a colliding finite grid and compared with a reference EVM",
